@@ -319,6 +319,9 @@ def load_performance_midi(
             )
         for meta in pp.meta_other:
             meta["time"] = adjust_time(meta["time_tick"], tempo_changes, ppq)
+        # the sounding ends of the notes were computed when the part was built,
+        # from the times before the adjustment: recompute them
+        pp.sustain_pedal_threshold = pp.sustain_pedal_threshold
 
     perf = performance.Performance(
         id=doc_name,
